@@ -27,6 +27,11 @@ type Failure struct {
 	X        float64 `json:"x"`
 	Observed string  `json:"observed"`
 	Expected string  `json:"expected"`
+	V        *VCase  `json:"v,omitempty"`
+}
+
+func mkF(fam, kind, fn string, p Params, x float64, obs, exp string) Failure {
+	return Failure{Fam: fam, Kind: kind, Fn: fn, P: p, X: x, Observed: obs, Expected: exp}
 }
 
 func xlogy(x, y float64) float64 {
@@ -306,7 +311,7 @@ func hunt(o Opts) {
 		}
 		obs, inc := evalAll(f, p, "LogPdf", x)
 		if inc != "" {
-			report(Failure{f.Name, "consistency", "LogPdf", p, x, inc, "identical outcomes"})
+			report(mkF(f.Name, "consistency", "LogPdf", p, x, inc, "identical outcomes"))
 		}
 		ref := refLogPdf(f.Name, p, x)
 		if math.IsNaN(ref) {
@@ -318,12 +323,12 @@ func hunt(o Opts) {
 		v := num(obs)
 		if math.IsInf(ref, -1) {
 			if !(obs.Kind == "ninf") {
-				report(Failure{f.Name, "support", "LogPdf", p, x, fmt.Sprintf("%s %v", obs.Kind, obs.V), "-Inf outside the support"})
+				report(mkF(f.Name, "support", "LogPdf", p, x, fmt.Sprintf("%s %v", obs.Kind, obs.V), "-Inf outside the support"))
 			}
 			return
 		}
 		if !close(v, ref, 1e-9) {
-			report(Failure{f.Name, "formula", "LogPdf", p, x, fmt.Sprintf("%s %v", obs.Kind, obs.V), fmt.Sprintf("%v", ref)})
+			report(mkF(f.Name, "formula", "LogPdf", p, x, fmt.Sprintf("%s %v", obs.Kind, obs.V), fmt.Sprintf("%v", ref)))
 		}
 	}
 	// replayed cases first (cases the correspondence flagged, or a replay file)
@@ -334,6 +339,10 @@ func hunt(o Opts) {
 			}
 			json.Unmarshal(b, &rp)
 			for _, c := range rp.Cases {
+				if c.V != nil {
+					vecCheck(c.Fam, *c.V, report, &tried)
+					continue
+				}
 				f := famByName(c.Fam)
 				if f == nil || f.Name == "FDelta" {
 					continue
@@ -369,10 +378,10 @@ func hunt(o Opts) {
 				acc := err == nil && d != nil
 				val := refValid(f.Name, p)
 				if acc && !val {
-					report(Failure{f.Name, "ctor-accepts-invalid", "New", p, 0, "accepted", "error"})
+					report(mkF(f.Name, "ctor-accepts-invalid", "New", p, 0, "accepted", "error"))
 				}
 				if !acc && val {
-					report(Failure{f.Name, "ctor-rejects-valid", "New", p, 0, "error", "accepted"})
+					report(mkF(f.Name, "ctor-rejects-valid", "New", p, 0, "error", "accepted"))
 				}
 			}
 			p := f.Valid(r)
@@ -392,11 +401,12 @@ func hunt(o Opts) {
 			}
 		}
 	}
+	vecHunt(o, report, &tried)
 	// unnormalised categorical weights: the textbook family needs sum theta = 1
 	if f := famByName("FCategorical"); f != nil {
 		p := Params{[]float64{0.25, 0.5, 4}, nil}
 		if d, err := f.New(ad.Real64Type, p); err == nil && d != nil {
-			report(Failure{f.Name, "ctor-accepts-invalid", "New", p, 0, "accepted", "error (weights do not sum to one)"})
+			report(mkF(f.Name, "ctor-accepts-invalid", "New", p, 0, "accepted", "error (weights do not sum to one)"))
 		}
 	}
 	res := map[string]interface{}{"found": len(fails) > 0, "failures": fails, "tried": tried}
@@ -464,7 +474,7 @@ func normCheck(f *Fam, p Params, report func(Failure), tried *int) {
 		total = quad(pdf, lo, hi, centre(f.Name, p), 40000)
 	}
 	if !(math.Abs(total-1) < 2e-3) {
-		report(Failure{f.Name, "norm", "LogPdf", p, 0, fmt.Sprintf("total mass %v", total), "1"})
+		report(mkF(f.Name, "norm", "LogPdf", p, 0, fmt.Sprintf("total mass %v", total), "1"))
 	}
 }
 
@@ -523,7 +533,7 @@ func derivCheck(f *Fam, p Params, x float64, report func(Failure), tried *int) {
 		}
 		got := r.GetDerivative(i)
 		if !(math.Abs(got-cd) <= 1e-4*math.Max(1, math.Abs(cd))) {
-			report(Failure{f.Name, "deriv-slot", "LogPdf", p, x, fmt.Sprintf("d/dparam[%d] = %v", i, got), fmt.Sprintf("%v (central difference)", cd)})
+			report(mkF(f.Name, "deriv-slot", "LogPdf", p, x, fmt.Sprintf("d/dparam[%d] = %v", i, got), fmt.Sprintf("%v (central difference)", cd)))
 		}
 	}
 }
@@ -548,25 +558,25 @@ func roundTrip(f *Fam, p Params, x float64, report func(Failure), tried *int) {
 	func() {
 		defer func() {
 			if e := recover(); e != nil {
-				report(Failure{f.Name, "roundtrip", "SetParameters", p, x, fmt.Sprintf("panic %v", e), "no panic"})
+				report(mkF(f.Name, "roundtrip", "SetParameters", p, x, fmt.Sprintf("panic %v", e), "no panic"))
 			}
 		}()
 		c := pdf.CloneScalarPdf()
 		if o := logpdfGo(c, x); !sameOutcome(before, o) {
-			report(Failure{f.Name, "roundtrip", "Clone", p, x, fmt.Sprintf("%v", o), fmt.Sprintf("%v", before)})
+			report(mkF(f.Name, "roundtrip", "Clone", p, x, fmt.Sprintf("%v", o), fmt.Sprintf("%v", before)))
 		}
 		if f.Name == "FTransNormal" || f.Name == "FLogTransNormal" {
 			return
 		}
 		ps := pdf.GetParameters().CloneVector()
 		if err := c.SetParameters(ps); err != nil {
-			report(Failure{f.Name, "roundtrip", "SetParameters", p, x, "error " + err.Error(), "nil"})
+			report(mkF(f.Name, "roundtrip", "SetParameters", p, x, "error " + err.Error(), "nil"))
 			return
 		}
 		o := logpdfGo(c, x)
 		a, b := num(before2(before)), num(before2(o))
 		if !(a == b || math.Abs(a-b) <= 1e-12*math.Max(1, math.Abs(a)) || (math.IsNaN(a) && math.IsNaN(b))) {
-			report(Failure{f.Name, "roundtrip", "SetParameters(GetParameters)", p, x, fmt.Sprintf("%v", o), fmt.Sprintf("%v", before)})
+			report(mkF(f.Name, "roundtrip", "SetParameters(GetParameters)", p, x, fmt.Sprintf("%v", o), fmt.Sprintf("%v", before)))
 		}
 	}()
 }
@@ -627,15 +637,15 @@ func cdfChecks(f *Fam, p Params, report func(Failure), tried *int, extra []float
 	for i, x := range xs {
 		v := cdf(x)
 		if math.IsNaN(v) || v < -1e-12 || v > 1+1e-12 {
-			report(Failure{f.Name, "cdf-range", "Cdf", p, x, fmt.Sprintf("%v", v), "a value in [0,1]"})
+			report(mkF(f.Name, "cdf-range", "Cdf", p, x, fmt.Sprintf("%v", v), "a value in [0,1]"))
 			continue
 		}
 		if lv := lcdf(x); !(lv == math.Log(v) || (lv < -700 && v < 1e-300) || math.Abs(lv-math.Log(v)) <= 1e-9*math.Max(1, math.Abs(lv))) {
-			report(Failure{f.Name, "cdf-log", "LogCdf", p, x, fmt.Sprintf("%v", lv), fmt.Sprintf("ln Cdf = %v", math.Log(v))})
+			report(mkF(f.Name, "cdf-log", "LogCdf", p, x, fmt.Sprintf("%v", lv), fmt.Sprintf("ln Cdf = %v", math.Log(v))))
 		}
 		if i < len(xs)-len(extra) && i > 0 && v < prev-1e-12 {
 			// witness point: the earlier (larger-valued) point
-			report(Failure{f.Name, "cdf-mono", "Cdf", p, prevx, fmt.Sprintf("Cdf(%v)=%v > Cdf(%v)=%v", prevx, prev, x, v), "non-decreasing"})
+			report(mkF(f.Name, "cdf-mono", "Cdf", p, prevx, fmt.Sprintf("Cdf(%v)=%v > Cdf(%v)=%v", prevx, prev, x, v), "non-decreasing"))
 		}
 		if i < len(xs)-len(extra) {
 			prev, prevx = v, x
@@ -647,7 +657,7 @@ func cdfChecks(f *Fam, p Params, report func(Failure), tried *int, extra []float
 				dd := (cdf(x+h) - cdf(x-h)) / (2 * h)
 				pd := math.Exp(num(logpdfGo(d, x)))
 				if !(math.Abs(dd-pd) <= 1e-4*math.Max(1e-3/scale, pd)) {
-					report(Failure{f.Name, "cdf-deriv", "Cdf", p, x, fmt.Sprintf("dCdf/dx = %v", dd), fmt.Sprintf("pdf = %v", pd)})
+					report(mkF(f.Name, "cdf-deriv", "Cdf", p, x, fmt.Sprintf("dCdf/dx = %v", dd), fmt.Sprintf("pdf = %v", pd)))
 				}
 			}
 		}
@@ -667,11 +677,11 @@ func cdfChecks(f *Fam, p Params, report func(Failure), tried *int, extra []float
 			left = hi - 1e6*scale
 		}
 		if v := cdf(left); !(math.Abs(v) < 1e-3) {
-			report(Failure{f.Name, "cdf-limits", "Cdf", p, left, fmt.Sprintf("%v", v), "0 at the left end"})
+			report(mkF(f.Name, "cdf-limits", "Cdf", p, left, fmt.Sprintf("%v", v), "0 at the left end"))
 		}
 		// heavy tails (Cauchy-like shapes) approach 1 slowly: 1e-2 is enough to see a wrong limit
 		if v := cdf(right); !(math.Abs(v-1) < 1e-2) && !(f.Name == "FPareto" && p.Ps[1] < 0.5) && !(f.Name == "FPowerLaw" && p.Ps[0] < 1.5) && !((f.Name == "FGPareto" || f.Name == "FGev") && p.Ps[2] > 1) {
-			report(Failure{f.Name, "cdf-limits", "Cdf", p, right, fmt.Sprintf("%v", v), "1 at the right end"})
+			report(mkF(f.Name, "cdf-limits", "Cdf", p, right, fmt.Sprintf("%v", v), "1 at the right end"))
 		}
 	}
 }
